@@ -194,7 +194,21 @@ def build_mesh(prog: dict, geo: Geometry):
                 c1, c2 = op["pts"].index(e["pa"]), op["pts"].index(e["pb"])
                 if e.get("swap"):
                     c1, c2 = c2, c1
-                loft.project_edge(c1, c2, e["labels"] if len(e["labels"]) > 1 else e["labels"][0])
+                label = e["labels"] if len(e["labels"]) > 1 else e["labels"][0]
+                if op.get("share_project"):
+                    # one Project object handed to every edge with these labels (as in Face(points, [Project(...)] * 4)):
+                    # edge data without geometry of its own may be shared between the edges of an operation
+                    shared = op.setdefault("_shared", {})
+                    obj = shared.setdefault(tuple(e["labels"]), cb.Project(label))
+                    lo, hi = min(c1, c2), max(c1, c2)
+                    if hi - lo == 4:
+                        loft.add_side_edge(lo, obj)
+                    else:
+                        face = loft.bottom_face if hi < 4 else loft.top_face
+                        a, b = lo % 4, hi % 4
+                        face.add_edge(a if b == (a + 1) % 4 else b, obj)
+                else:
+                    loft.project_edge(c1, c2, label)
         for a in range(3):
             loft.chop(a, count=prog.get("count", 2))
         if op["zone"]:
@@ -210,11 +224,17 @@ def build_mesh(prog: dict, geo: Geometry):
             if labels:
                 loft.project_corner(c, labels if len(labels) > 1 else labels[0])
         op["get_face"] = [[posid(p.position) for p in loft.get_face(s).points] for s in SIDES]
+        op.pop("_shared", None)
         ops.append(loft)
         mesh.add(loft)
     for op, loft in zip(prog["ops"], ops):
         if op["deleted"]:
             mesh.delete(loft)
+    if prog.get("reassemble"):
+        # assemble() followed by clear() is a no-op for what is written later: nothing computed during the first
+        # assembly (vertex tables, cached patch sets, edge data) may survive it
+        mesh.assemble()
+        mesh.clear()
     for pair in prog["merged"]:
         mesh.merge_patches(pair[0], pair[1])
     if prog["dflt"]:
